@@ -846,7 +846,7 @@ def main():
              'derivatives without first} + 4 extra operator rules x 2 entry points; fault-free hosts; missing-data code read / in '
              'unselected Elem and ConditionalSum branch / unread column / non-default declared code (9 cases); 15 data faults; '
              '10 model functions x overlapping / leaving nests; 3 warning-only specifications (audit: no error, one warning; no foreign exception) + 1 error-and-warning audit; create_function x 8 derivative requests + a point of the wrong length' % (len(cases), len(HOSTS), 'sampled' if tier == 'quick' else 'all 8'))
-    print(json.dumps({'cases': len(cases), 'bound': bound, 'failures': (diverse + rest)[:10],
+    print(json.dumps({'cases': len(cases), 'bound': bound, 'failures': (diverse + rest)[:60],
                       'n_failures': len(failures), 'n_failure_classes': len(diverse),
                       'n_cases_retried_after_crash': sum(1 for o in results.values() if o.get('died_retries'))}))
     return 0 if not failures else 1
